@@ -36,6 +36,19 @@ class Ctx:
         kf = common.load_known_findings()
         self.known_ids = {f["id"]: f for f in kf.get("findings", []) if f.get("property") == pid}
 
+    def crumb(self, **what):
+        """note what is about to be executed in-process by code of the repository that may crash the interpreter (C
+        routines called through the Python wrappers); the supervisor in harness.main reports it if the check dies"""
+        import json
+        import os
+        path = os.environ.get("VERIF_BREADCRUMB")
+        if path:
+            try:
+                with open(path, "w") as f:
+                    json.dump(what, f, default=str)
+            except OSError:
+                pass
+
     def known(self, res, fid, case_desc):
         """Attribute a failing case to a listed known finding. Returns False when `fid` is not listed
         (then the caller must report a violation)."""
